@@ -7065,6 +7065,10 @@ R_<TG_, TA_>::initialEnter() noexcept {
 	FFSM2_ASSERT(!_core.request);
 	FFSM2_IF_TRANSITION_HISTORY(_core.previousTransition = currentTransition);
 
+	// a vetoed redirect must not be entered: enter the last accepted destination
+	_core.registry.requested = currentTransition ?
+		currentTransition.destination : StateID{0};
+
 	_apex.deepEnter(control);
 
 	_core.registry.clearRequests();
@@ -7147,8 +7151,12 @@ R_<TG_, TA_>::processTransitions(Transition& currentTransition) noexcept {
 	}
 	FFSM2_ASSERT(!_core.request);
 
-	if (currentTransition)
+	if (currentTransition) {
+		// a vetoed request must not be applied: change to the last accepted destination
+		_core.registry.requested = currentTransition.destination;
+
 		_apex.deepChangeToRequested(control);
+	}
 
 	_core.registry.clearRequests();
 }
